@@ -379,10 +379,22 @@ class FlowParser:
             self.rapidpro_container.add_flow(flow_container)
         return flow_container
 
-    def _parse_block(self, depth=0, block_type="root_block", omit_content=False):
+    def _parse_next_row(self, omit_content):
         row, row_idx = self.sheet_parser.parse_next_row(
             omit_templating=omit_content, return_index=True
         )
+        if row is not None:
+            # Omit trivial edges (i.e. from is blank so implicitly goes
+            # from the previous row, and no condition either)
+            # unless it is the first edge in the list: in a sheet, a row
+            # with fewer edges than others has blank cells in their columns.
+            row.edges = [
+                edge for i, edge in enumerate(row.edges) if edge != Edge() or i == 0
+            ]
+        return row, row_idx
+
+    def _parse_block(self, depth=0, block_type="root_block", omit_content=False):
+        row, row_idx = self._parse_next_row(omit_content)
         while not self._is_end_of_block(block_type, row):
             if omit_content or not row.include_if:
                 if row.type == "begin_for":
@@ -442,9 +454,7 @@ class FlowParser:
                 else:
                     with logging_context(f"row {row_idx}"):
                         self._parse_row(row)
-            row, row_idx = self.sheet_parser.parse_next_row(
-                omit_templating=omit_content, return_index=True
-            )
+            row, row_idx = self._parse_next_row(omit_content)
 
     def _is_end_of_block(self, block_type, row):
         block_end_map = {
@@ -787,12 +797,8 @@ class FlowParser:
         if row_action:
             new_node.add_action(row_action)
 
-        for i, edge in enumerate(row.edges):
-            if edge != Edge() or i == 0:
-                # Omit trivial edges (i.e. from is blank so implicitly goes
-                # (from the previous row, and no condition either)
-                # unless it is the first edge in the list.
-                self._add_row_edge(edge, new_node.uuid)
+        for edge in row.edges:
+            self._add_row_edge(edge, new_node.uuid)
 
         new_node_group = RowNodeGroup(new_node, row.type)
         self.append_node_group(new_node_group, row.row_id)
